@@ -99,7 +99,7 @@ func genUp(rng *core.Rand, id int, downBias int) upSpec {
 	if rng.Chance(1, 4) {
 		u.load = rng.Intn(7)
 	}
-	if rng.Chance(1, 3) {
+	if rng.Chance(1, 5) {
 		u.load = 0
 	}
 	if rng.Chance(1, 4) {
@@ -133,22 +133,25 @@ func genUp(rng *core.Rand, id int, downBias int) upSpec {
 }
 
 func genPool(rng *core.Rand, tier string) []upSpec {
-	size := rng.Intn(7)
+	size := 1 + rng.Intn(7)
 	switch {
 	case rng.Chance(1, 10):
-		size = 7 + rng.Intn(6)
-	case rng.Chance(1, 25):
+		size = 8 + rng.Intn(5)
+	case rng.Chance(1, 40):
 		size = 0
 	}
 	if tier == "thorough" && rng.Chance(1, 40) {
 		size = 13 + rng.Intn(20)
 	}
-	downBias := []int{0, 15, 35, 60, 85, 100}[rng.Intn(6)]
+	downBias := []int{0, 10, 25, 40, 60, 85}[rng.Intn(6)]
+	if rng.Chance(1, 30) {
+		downBias = 100
+	}
 	perm := rng.Intn(50)
 	var pool []upSpec
 	for i := 0; i < size; i++ {
 		id := 1 + (i*7+perm)%53
-		if rng.Chance(1, 30) && i > 0 {
+		if rng.Chance(1, 60) && i > 0 {
 			id = pool[rng.Intn(i)].id // the same dial address twice
 		}
 		pool = append(pool, genUp(rng, id, downBias))
